@@ -112,8 +112,12 @@ func c01Escape(c context, s string) (context, string) {
 	return c1, s
 }
 
+// c01UnknownRaw is the class predicate of the known finding C01-unknown-rawtext: the
+// tokenizer is inside a raw-text element that the escaper's specialElements table (read
+// from the current source) does not list. An element the escaper does list is not in the class.
 func c01UnknownRaw(t *tok) bool {
-	return t.raw == rawXmp || t.raw == rawIframe || t.raw == rawNoembed || t.raw == rawNoframes || t.raw == rawNoscript || t.raw == rawPlaintext
+	unknown := t.raw == rawXmp || t.raw == rawIframe || t.raw == rawNoembed || t.raw == rawNoframes || t.raw == rawNoscript || t.raw == rawPlaintext
+	return unknown && !specialElements[rawNames[t.raw]]
 }
 
 // L1 + L2: one text node from a pre-state
